@@ -72,6 +72,15 @@ def generate(master, index, tier):
             dmg, tag = W.damage_detectable(rng, f)
             items.append(["dmg", dmg.hex(), tag + "/long"])
         items.append(W.gen_frame(rng))
+    if index % 100 == 57:
+        # long-lived connection: hundreds to thousands of frames, sparse damage
+        pd = rng.choice((0.002, 0.01, 0.05, 0.3))
+        items = []
+        for it in W.gen_long_valid_run(rng, rng.choice((150, 300, 700, 1500, 3000))):
+            if it[0] == "frame" and rng.random() < pd:
+                dmg, tag = W.damage_detectable(rng, bytes.fromhex(it[1]))
+                it = ["dmg", dmg.hex(), tag + "/" + it[2]]
+            items.append(it)
     mode = rng.choice(("ignore", "log+handler", "log+handler", "log", "raise", "raise"))
     q = {"ignore": 0, "log+handler": 1, "log": 1, "raise": 2}[mode]
     return {
